@@ -71,7 +71,7 @@ def one_run(b, d, opts, pert, epoch=True):
         if pert["kind"] == "stale":
             # an earlier run left a longer file under the same name: it must not show through
             open(os.path.join(d, f), "w").write("/* stale output of an earlier, bigger run */\n" * pert.get("n", 4000))
-    env = {"SOURCE_DATE_EPOCH": "1000000" if epoch else None}
+    env = {"SOURCE_DATE_EPOCH": str(pert.get("epoch", "1000000")) if epoch else None}
     preload = None
     prefix = []
     kind = pert["kind"]
@@ -202,6 +202,26 @@ def run_case(ctx, case):
                     dc = diff_class(base[k], got.get(k) or b"")
                     res.violation(f"output-differs:file={k},backend={case['backend']},perturbation={pert['kind']},{dc}",
                                   pert=pert, replay_case=dict(rc, perts=[pert]))
+    # other SOURCE_DATE_EPOCH values, notably 0: two runs at different (faked) times must be byte-identical
+    for ep in case.get("epochs", []):
+        t0 = case["noepoch"][0] if case.get("noepoch") else 1500000000
+        a = one_run(b, d, opts, dict(kind="time", t=t0, epoch=ep))
+        c = one_run(b, d, opts, dict(kind="time", t=t0 + 777, epoch=ep))
+        res.count("runs_compared", 2)
+        res.features.add(f"{case['backend']}:epoch={'0' if str(ep) == '0' else 'nonzero'}")
+        if a["_rc"] != 0 or c["_rc"] != 0:
+            res.violation("run-failed-under:epoch:" + a["_how"] + "/" + c["_how"], replay_case=rc)
+            continue
+        for k in ("oc", "od", "oh", "module"):
+            if a.get(k) is not None and a.get(k) != c.get(k):
+                res.violation(f"output-differs:file={k},backend={case['backend']},perturbation=time,epoch={'0' if str(ep) == '0' else 'nonzero'}",
+                              epoch=ep, replay_case=rc)
+        ident = (a["od"] or b"").split(None, 1)[0] if a.get("od") else None
+        if ident is not None:
+            res.count("identifier_runs")
+            if ident != str(ep).encode():
+                res.violation(f"identifier-not-epoch:epoch={'0' if str(ep) == '0' else 'nonzero'}", ident=ident.decode(), epoch=ep,
+                              replay_case=rc)
     # without SOURCE_DATE_EPOCH: only the identifier may differ, same number in code and database
     if case.get("noepoch"):
         outs = []
@@ -254,7 +274,7 @@ def main(chk):
             perts += [dict(kind="heap", seed=rng.randrange(1, 1 << 30)) for _ in range(nheap)]
             t1 = rng.randrange(10 ** 9, 2 * 10 ** 9)
             cases.append(dict(id=cid, libseed=libseed, backend=be, perts=perts, size=0.8,
-                              noepoch=[t1, t1 + rng.randrange(1, 10 ** 6)]))
+                              noepoch=[t1, t1 + rng.randrange(1, 10 ** 6)], epochs=[0, rng.choice([1, 86400, 1700000000])]))
     for i in range(chk.pick(4, 24)):
         cid += 1
         cases.append(dict(id=cid, mode="memcheck", libseed=rng.randrange(1 << 30), backend=["c", "native", "python", "all3"][i % 4],
